@@ -452,15 +452,19 @@ def check_C02(history, expected_tests=None, expected_combos=None):
                                  f"{short(r['name'])} is left with status {r['status']}",
                                  epoch=epoch, name=r["name"], status=r["status"]))
             if expected_tests is not None:
-                started_names = [ev["name"] for ev in starts]
-                found_present = {ev["name_head"] for ev in events if ev["kind"] == "door.check" and ev["answer"]}
-                for flat in expected_tests.get(epoch, expected_tests.get("*", [])):
+                # a test is the same test through whichever test set it was selected or found as a dependency
+                from travsim.resolver import strip_set
+                started_names = [strip_set(ev["name"]) for ev in starts]
+                found_present = {strip_set(ev["name_head"]) for ev in events if ev["kind"] == "door.check" and ev["answer"]}
+                for flat_named in expected_tests.get(epoch, expected_tests.get("*", [])):
+                    flat = strip_set(flat_named)
                     if flat in found_present:
                         continue  # a selected test that only produces states which all exist already is skipped (C03)
                     if not any(n.startswith(flat + ".") for n in started_names):
                         out.append(V("C02", "not-executed", f"selected test {flat} was never executed",
                                      epoch=epoch, test=flat))
                 for flat, tokens in (expected_combos or []):
+                    flat = strip_set(flat)
                     if flat in found_present:
                         continue
                     if not any(n.startswith(flat + ".") and all(f".{vm}.{tok}." in n for vm, tok in tokens.items())
